@@ -1,8 +1,19 @@
-import Flatland.JsonUtil
-open Lean Flatland.J
+import Flatland.Run.FlatCommon
+import Flatland.Spec.C02
+open Lean
+open Flatland.J hiding Str
 namespace Flatland.Run.C02
+open Flatland.Flat Flatland.Run.FlatCommon
 
-/-- JSON case in, JSON observation out (stub until the model of C02 is written). -/
-def run (_j : Json) : Except String Json := .error "model runner for C02 not implemented yet"
+/-- case: schema, sep, pairs (+ optional "start": element to call set_flat on), env -/
+def run (j : Json) : Except String Json := do
+  let s ← parseSchema (← fld j "schema")
+  let sep ← cfld j "sep"
+  let env ← parseEnv (← fld j "env")
+  let ps ← parsePairs (← fld j "pairs")
+  let e := fromFlat env sep s ps
+  let addrs := ps.map (fun p => Json.bool (Flatland.Flat.Spec.addr env sep s (some p.1)))
+  return obj [("elem", elemJson e), ("flatten", pairsJson (flatten env sep s e)),
+              ("addr", Json.arr addrs.toArray)]
 
 end Flatland.Run.C02
